@@ -1,6 +1,7 @@
 """C05 — components: scope isolated, recursion bounded, one context builder (partial)."""
 from engine import (Tracer, EdgeFacts, find_calls, find_aggs, field_accesses, AnchorMissing, leaf_str, leaf_call_is, pl_projs, callee_def)
 import rrec
+import re
 from props import c07
 
 EXPLANATION = (
@@ -191,7 +192,7 @@ def check_priority(crate, rep, cfg):
     b = crate.one("tera::Tera::finalize_templates")
     tr = Tracer(b)
     ef = EdgeFacts(b, crate)
-    tabs = [i for i, l in enumerate(b.locals) if l["ty"].replace(" ", "").startswith("std::collections::HashMap<&str,(&str,usize)") and i > b.arg_count]
+    tabs = [i for i, l in enumerate(b.locals) if re.match(r"^[\w:]*HashMap<&str,\(&str,usize\)", l["ty"].replace(" ", "")) and i > b.arg_count]
     if len(tabs) != 1:
         rep.anchor_missing("C05.PRIO", "the component -> (template, priority) table of finalize_templates (%d candidates)" % len(tabs))
         return
